@@ -17,7 +17,7 @@
 (*             overflows; the resulting tree is the meaning of the text (C03) *)
 (*  merge      see C14 in Check                                               *)
 (*  ambig      see C08 in Check                                               *)
-EXTENDS JsonValue, TLC, Json, IOUtils
+EXTENDS JsonValue, Decoder, TLC, Json, IOUtils
 
 CONSTANT MaxD
 
@@ -143,11 +143,30 @@ CheckAmbig(rec) ==
     ELSE IF v(FALSE, TRUE) /\ ~v(FALSE, FALSE) /\ res("ad")[2] # res("ad+ai")[2] THEN <<"C08", "ad-vs-both-differ">>
     ELSE <<>>
 
+\* ------------------------------------------------------------------ SemanticError position (C16)
+\* tree = [off, kind, eoff, eptr]: the text is valid JSON that fits the target type except for the
+\* value starting at off; Unmarshal must report a SemanticError whose ByteOffset is the start of
+\* that value and whose JSONPointer designates it
+CheckSemErr(rec) ==
+    IF rec.texts = <<>> THEN <<>>
+    ELSE
+    LET src == rec.texts[1]
+        tab == Table(Opt(FALSE, FALSE, MaxD), src)
+        hits == {i \in 1..Len(tab.toks) : tab.toks[i].s = rec.tree.off}
+        i == CHOOSE j \in hits : TRUE
+        stk == FoldLeft(ApplyTok, DInit.stk, SubSeq(tab.toks, 1, i)) IN
+    IF tab.dead \/ ~tab.clean \/ hits = {} THEN <<"SPEC", "driver-built-an-invalid-text">>
+    ELSE IF rec.tree.kind # "semantic" THEN <<"C16", "no-semantic-error", rec.tree.kind>>
+    ELSE IF rec.tree.eoff # rec.tree.off THEN <<"C16", "semantic-error-offset", rec.tree.off>>
+    ELSE IF rec.tree.eptr # PointerOf(stk) THEN <<"C16", "semantic-error-pointer", PointerOf(stk)>>
+    ELSE <<>>
+
 Check(rec) ==
     IF rec.panic # "" THEN <<"C20", "panic">>
     ELSE CASE rec.kind \in {"valid", "sweep"} -> CheckValid(rec)
            [] rec.kind = "roundtrip" -> CheckRoundTrip(rec)
            [] rec.kind = "untyped" -> CheckUntyped(rec)
+           [] rec.kind = "semerr" -> CheckSemErr(rec)
            [] rec.kind = "merge" -> CheckMerge(rec)
            [] rec.kind = "ambig" -> CheckAmbig(rec)
            [] OTHER -> <<"SPEC", "unknown-kind">>
